@@ -347,6 +347,20 @@ func runC12(c *eng.Ctx) {
 			}
 		}
 		r3.Check(ok, run.Key+" executor", run.Decl.Pos(), "NewExecutor(dir(h.Path), h.Path, ..., envs)", "the hook process is not started in the hook's own directory with the hook as executable and the prepared environment")
+		// the environment is built in a slice this execution owns: every assignment of the variable is a fresh slice
+		// (make, literal, nil, os.Environ(), slices.Clone, an append onto one of those) or an append onto itself. A
+		// base that lives longer than the execution (a package variable, a cached slice with spare capacity) makes
+		// concurrent executions write their *_PATH variables into the same array.
+		if ev, isV := envsVar.(*types.Var); isV {
+			shared := sharedSliceSource(info, run.Decl.Body, ev)
+			pos := run.Decl.Pos()
+			detail := ""
+			if shared != nil {
+				pos = shared.Pos()
+				detail = "`" + eng.Short(p.Fset, shared) + "`"
+			}
+			r3.Check(shared == nil, run.Key+" env slice owned by the execution", pos, "every assignment of the environment is a fresh slice or an append onto itself", "the environment of an execution is built on a slice that outlives it ("+detail+"): two hooks that run at the same time in different queues append their *_PATH variables into the same backing array and one of them starts with the other's files")
+		}
 		// precedence: os/exec uses the last value of a duplicated key, so the per-execution variables must come after
 		// anything inherited from the operator's own environment, in Run and in NewExecutor
 		g := p.GraphOf(run)
